@@ -60,6 +60,12 @@ def corner_models():
     else_g = oh.make_graph([oh.make_node("Mul", ["x", "t"], ["eb"])], "else", [], [vi("eb")])
     out.append(("subgraph-captures-outer", mk([oh.make_node("Relu", ["x"], ["t"]), oh.make_node("If", ["c"], ["y"], then_branch=then_g, else_branch=else_g)],
                                               [vi("x"), vi("c", (), TP.BOOL)], [vi("y")]), True))
+    wi = numpy_helper.from_array(np.array([3, 4], F32), "W")
+    wj = numpy_helper.from_array(np.array([5, 6], F32), "W2")
+    then_i = oh.make_graph([oh.make_node("Add", ["x", "W"], ["tb"])], "then", [], [vi("tb")], [wi])
+    else_i = oh.make_graph([oh.make_node("Mul", ["x", "W2"], ["eb"])], "else", [], [vi("eb")], [wj])
+    out.append(("subgraph-owns-initializer", mk([oh.make_node("If", ["c"], ["y"], then_branch=then_i, else_branch=else_i)],
+                                                [vi("x"), vi("c", (), TP.BOOL)], [vi("y")]), True))
     out.append(("symbolic-dims", mk([oh.make_node("Relu", ["x"], ["y"])], [oh.make_tensor_value_info("x", TP.FLOAT, ["N"])],
                                     [oh.make_tensor_value_info("y", TP.FLOAT, ["N"])]), True))
     out.append(("custom-domain", mk([oh.make_node("Foo", ["x"], ["y"], domain="my.dom")], [vi("x")], [vi("y")],
